@@ -86,8 +86,27 @@ struct Flags {
     unsupported: Option<String>,
 }
 
+/// Alternative semantics of a *confirmed engine deviation*: evaluating the
+/// reference with a quirk switched on shows whether that one root cause
+/// explains an engine result exactly (used to key violations by root cause).
+#[derive(Clone, Copy, Debug, Default, PartialEq, Eq)]
+pub struct Quirks {
+    /// INTERSECT ALL / EXCEPT ALL evaluated as a semi / anti join: every left
+    /// row is kept (with its multiplicity) iff an equal row exists / does not
+    /// exist on the right (NULLs equal).
+    pub setop_all_as_semijoin: bool,
+    /// `x NOT IN (SELECT k FROM r WHERE local AND correlated)` evaluated the way a
+    /// null-aware anti join with a residual filter does it: the NULL test looks at
+    /// *all* rows of `r` passing the local conjuncts (ignoring the correlated
+    /// ones): any NULL key there => no outer row qualifies; a NULL `x` is dropped
+    /// whenever that unfiltered set is non-empty; otherwise the outer row
+    /// qualifies iff no row passing the correlated conjuncts has `k = x`.
+    pub not_in_null_check_ignores_correlation: bool,
+}
+
 pub struct Interp<'d> {
     db: &'d Database,
+    quirks: Quirks,
     flags: RefCell<Flags>,
     /// CTE bindings, innermost last
     ctes: RefCell<Vec<(String, Rel)>>,
@@ -101,7 +120,12 @@ pub const ROW_CAP: usize = 20_000;
 
 /// Evaluate `q` on `db`.
 pub fn evaluate(db: &Database, q: &Query) -> RefOutcome {
-    let it = Interp { db, flags: RefCell::new(Flags::default()), ctes: RefCell::new(vec![]), steps: RefCell::new(0) };
+    evaluate_with(db, q, Quirks::default())
+}
+
+/// [`evaluate`] under alternative semantics (see [`Quirks`]).
+pub fn evaluate_with(db: &Database, q: &Query, quirks: Quirks) -> RefOutcome {
+    let it = Interp { db, quirks, flags: RefCell::new(Flags::default()), ctes: RefCell::new(vec![]), steps: RefCell::new(0) };
     let sorted = it.eval_query_sorted(q, None);
     let f = it.flags.borrow();
     if let Some(u) = &f.unsupported {
@@ -168,6 +192,74 @@ impl<'d> Interp<'d> {
     }
     fn stopped(&self) -> bool {
         self.flags.borrow().unsupported.is_some()
+    }
+
+    /// Quirk evaluation of `x NOT IN (subquery)`; `None` when the subquery is not a
+    /// plain single-item SELECT with a WHERE clause.
+    pub(crate) fn quirk_not_in(&self, x: &Value, q: &Query, env: &Env) -> Option<Value> {
+        if !q.with.is_empty() || !q.order_by.is_empty() || q.limit.is_some() || q.offset.is_some() {
+            return None;
+        }
+        let sel = match &q.body {
+            SetExpr::Select(s) => s,
+            _ => return None,
+        };
+        if sel.items.len() != 1 || !matches!(sel.group_by, GroupBy::None) || sel.having.is_some() || sel.items[0].expr.contains_agg() || !matches!(sel.distinct, Distinct::No) {
+            return None;
+        }
+        let from = self.eval_from(sel.from.as_ref()?, Some(env));
+        // split WHERE into conjuncts; a conjunct is local iff all its columns resolve in `from`
+        fn conjuncts<'a>(e: &'a Expr, out: &mut Vec<&'a Expr>) {
+            match e {
+                Expr::Bin(BinOp::And, l, r) => {
+                    conjuncts(l, out);
+                    conjuncts(r, out);
+                }
+                other => out.push(other),
+            }
+        }
+        let mut cj = vec![];
+        if let Some(w) = &sel.where_ {
+            conjuncts(w, &mut cj);
+        }
+        let is_local = |e: &Expr| {
+            let mut ok = true;
+            e.walk(&mut |x| {
+                if let Expr::Col { rel, name } = x {
+                    let hit = from.cols.iter().any(|c| &c.name == name && rel.as_ref().map(|r| c.rel.as_deref() == Some(r.as_str())).unwrap_or(true));
+                    if !hit {
+                        ok = false;
+                    }
+                }
+                if matches!(x, Expr::ScalarSubquery(_) | Expr::Exists { .. } | Expr::InSubquery { .. } | Expr::Quantified { .. }) {
+                    ok = false;
+                }
+            });
+            ok
+        };
+        let (local, corr): (Vec<&Expr>, Vec<&Expr>) = cj.into_iter().partition(|e| is_local(e));
+        let mut all_keys = vec![];
+        let mut corr_keys = vec![];
+        for r in &from.rows {
+            let renv = Env::plain(&from.cols, r, Some(env));
+            if local.iter().all(|p| truth(&self.eval(p, &renv)) == Some(true)) {
+                let k = self.eval(&sel.items[0].expr, &renv);
+                if corr.iter().all(|p| truth(&self.eval(p, &renv)) == Some(true)) {
+                    corr_keys.push(k.clone());
+                }
+                all_keys.push(k);
+            }
+        }
+        if all_keys.iter().any(|k| k.is_null()) {
+            return Some(Value::Bool(false));
+        }
+        if corr_keys.iter().any(|k| expr::compare(BinOp::Eq, x, k) == Some(true)) {
+            return Some(Value::Bool(false));
+        }
+        if x.is_null() && !all_keys.is_empty() {
+            return Some(Value::Bool(false));
+        }
+        Some(Value::Bool(true))
     }
 
     /// A subquery used inside an expression: fully evaluated (ORDER BY, OFFSET, LIMIT applied).
@@ -341,6 +433,8 @@ impl<'d> Interp<'d> {
                     (SetOp::Union, false) => dedupe(l.rows.iter().chain(r.rows.iter()).cloned().collect()),
                     (SetOp::Intersect, false) => dedupe(l.rows.iter().filter(|x| rc.contains_key(*x)).cloned().collect()),
                     (SetOp::Except, false) => dedupe(l.rows.iter().filter(|x| !rc.contains_key(*x)).cloned().collect()),
+                    (SetOp::Intersect, true) if self.quirks.setop_all_as_semijoin => l.rows.iter().filter(|x| rc.contains_key(*x)).cloned().collect(),
+                    (SetOp::Except, true) if self.quirks.setop_all_as_semijoin => l.rows.iter().filter(|x| !rc.contains_key(*x)).cloned().collect(),
                     (SetOp::Intersect, true) => {
                         // min(m, n) copies
                         let mut out = vec![];
@@ -556,6 +650,55 @@ impl<'d> Interp<'d> {
 
     // ---------------------------------------------------------------- SELECT
 
+    /// A scalar subquery that does not depend on the rows of its SELECT may be
+    /// evaluated by the engine once, whatever the number of rows: if it yields
+    /// more than one row (or touches a failing construct) the statement may
+    /// fail even when no row ever reaches the expression.
+    fn probe_uncorrelated_scalars(&self, sel: &Select, outer: Option<&Env>) {
+        let mut subs: Vec<&Query> = vec![];
+        let mut grab = |e: &'_ Expr| {
+            // (lifetimes: collected below through raw walk)
+            let _ = e;
+        };
+        let _ = &mut grab;
+        let mut exprs: Vec<&Expr> = sel.items.iter().map(|i| &i.expr).collect();
+        if let Some(w) = &sel.where_ {
+            exprs.push(w);
+        }
+        if let Some(h) = &sel.having {
+            exprs.push(h);
+        }
+        for e in exprs {
+            e.walk(&mut |x| {
+                if let Expr::ScalarSubquery(q) = x {
+                    subs.push(&**q);
+                }
+            });
+        }
+        for q in subs {
+            let saved_unsupported = self.flags.borrow().unsupported.clone();
+            let saved_may_fail = self.flags.borrow().may_fail.clone();
+            let saved_amb = self.flags.borrow().ambiguous.clone();
+            self.flags.borrow_mut().unsupported = None;
+            let rel = match outer {
+                Some(o) => self.eval_query(q, Some(o)),
+                None => self.eval_query(q, None),
+            };
+            let correlated = self.flags.borrow().unsupported.is_some();
+            if correlated {
+                let mut f = self.flags.borrow_mut();
+                f.unsupported = saved_unsupported;
+                f.may_fail = saved_may_fail;
+                f.ambiguous = saved_amb;
+            } else {
+                self.flags.borrow_mut().unsupported = saved_unsupported;
+                if rel.rows.len() > 1 {
+                    self.may_fail("uncorrelated scalar subquery returns more than one row".into());
+                }
+            }
+        }
+    }
+
     fn item_name(it: &SelectItem) -> String {
         match (&it.alias, &it.expr) {
             (Some(a), _) => a.clone(),
@@ -575,6 +718,7 @@ impl<'d> Interp<'d> {
         if self.stopped() {
             return (Rel { cols: vec![], rows: vec![] }, vec![]);
         }
+        self.probe_uncorrelated_scalars(sel, outer);
         // `*` expansion
         let items: Vec<SelectItem> = if sel.items.is_empty() {
             input.cols.iter().map(|c| SelectItem { expr: Expr::Col { rel: c.rel.clone(), name: c.name.clone() }, alias: None }).collect()
